@@ -445,3 +445,18 @@ Definition run_ctx (p : cafile * bool) : list Z :=
   | Some (c, s) => 0 :: code_sslctx c ++ code_sslctx s
   end.
 Definition run_defaults (_ : unit) : list Z := 0 :: code_sslctx (new_ctx true) ++ code_sslctx (new_ctx false).
+
+(* one entry point for all correspondence streams (a single Coq evaluation per check run) *)
+Inductive anycase :=
+| AWorld (c : scase)
+| ADefaults
+| ACtx (ca : cafile) (cyphers : bool)
+| AClient (ctx : option ctxid).
+
+Definition run_any (a : anycase) : list Z * list Z :=
+  match a with
+  | AWorld c => run_case c
+  | ADefaults => (run_defaults tt, [])
+  | ACtx ca cy => (run_ctx (ca, cy), [])
+  | AClient c => ([code_event (mk_http_connection RP c)], [])
+  end.
